@@ -281,12 +281,12 @@ class Fn:
             for b, i, pl, rv, ln in self.assigns():
                 if not pl[1]:
                     d[pl[0]].append(("a", b, i, rv))
-                else:
+                elif pl[1][0] != "*":       # a store through a pointer does not redefine the pointer local
                     d[pl[0]].append(("pa", b, i, rv, pl))
             for c in self.calls():
                 if not c.dst[1]:
                     d[c.dst[0]].append(("call", c.bb, c))
-                else:
+                elif c.dst[1][0] != "*":
                     d[c.dst[0]].append(("pcall", c.bb, c))
             self._defs = d
         return self._defs
@@ -297,9 +297,39 @@ class Fn:
             return ds[0]
         return None
 
-    def origin(self, op_or_local, depth=30, through_calls=()):
-        """Follow copy/move/ref/deref/int-cast chains of single-definition temporaries back to a
-        root. Returns a tuple describing the root:
+    def reaching_def(self, l, bb):
+        """the unique whole-local definition of l that reaches block bb (flow-sensitive), else None"""
+        ds = [x for x in self.defs.get(l, []) if x[0] in ("a", "call")]
+        if any(x[0] in ("pa", "pcall") for x in self.defs.get(l, [])):
+            return None
+        if len(ds) == 1:
+            return ds[0]
+        if bb is None or not ds:
+            return None
+        cands = [d for d in ds if d[1] != bb and self.dominates(d[1], bb)]
+        same = [d for d in ds if d[1] == bb]
+        if same and not cands:
+            return None
+        if not cands:
+            return None
+        # latest dominating definition
+        best = cands[0]
+        for d in cands[1:]:
+            if self.dominates(best[1], d[1]):
+                best = d
+        # no other definition may reach bb without passing `best`
+        for d in ds:
+            if d is best:
+                continue
+            if bb in self.reach(d[1], avoid_blocks=[best[1]], threaded=False) and d[1] != best[1]:
+                # d reaches bb around best?  only a problem if d is not itself dominated-before best on every path
+                if not self.dominates(d[1], best[1]):
+                    return None
+        return best
+
+    def origin(self, op_or_local, depth=30, through_calls=(), at=None):
+        """Follow copy/move/ref/deref/int-cast chains of temporaries back to a root (flow-sensitive when a
+        local has several definitions and `at` = block of the use is given). Returns a tuple describing the root:
           ('arg', n, proj) | ('call', Call, proj) | ('const', constdict) | ('local', l, proj) | ('rv', rvalue)
         `proj` is the accumulated projection (field names) applied on the way."""
         if isinstance(op_or_local, int):
@@ -313,11 +343,16 @@ class Fn:
             l, proj = op[1][0], list(op[1][1])
         while depth > 0:
             depth -= 1
-            if 1 <= l <= self.argc:
+            if 1 <= l <= self.argc and not self.defs.get(l):
                 return ("arg", l, proj)
             sd = self.single_def(l)
             if sd is None:
+                sd = self.reaching_def(l, at)
+            if sd is None:
+                if 1 <= l <= self.argc:
+                    return ("arg", l, proj)
                 return ("local", l, proj)
+            at = sd[1]
             if sd[0] == "call":
                 c = sd[2]
                 if any(t in c.name for t in through_calls) and c.args:
@@ -338,10 +373,9 @@ class Fn:
                 return ("rv", rv)
             if k in ("ref", "raw"):
                 pl = rv[2]
-                # &(*x).f  → keep projection; the deref of the new ref cancels syntactically
                 l, proj = pl[0], list(pl[1]) + proj
                 continue
-            if k == "cast" and rv[1] in ("IntToInt", "PtrToPtr", "Transmute") or (k == "cast" and rv[1].startswith("Coerce")):
+            if k == "cast" and (rv[1] in ("IntToInt", "PtrToPtr", "Transmute") or rv[1].startswith("Coerce")):
                 o = rv[2]
                 if o[0] == "k":
                     return ("const", o[1])
@@ -482,3 +516,81 @@ def taint(fn, seeds, transparent=TRANSPARENT_CALLS, stop_calls=()):
                     t.add(c.dst[0])
                     changed = True
     return t
+
+
+# ---------------------------------------------------------------- locks / critical sections
+LOCK_FNS = ("lock_api::Mutex::<R, T>::lock", "sync::Mutex::<T>::lock", "lock_api::RwLock::<R, T>::write", "lock_api::RwLock::<R, T>::read",
+            "sync::RwLock::<T>::write", "sync::RwLock::<T>::read", "lock_api::Mutex::<R, T>::try_lock")
+DEREFS = ("::deref", "::deref_mut")
+
+
+def is_lock_call(c):
+    return any(c.name.endswith(s) for s in LOCK_FNS)
+
+
+def lock_calls(fn):
+    return [c for c in fn.calls() if is_lock_call(c)]
+
+
+def guard_of(fn, op, at=None):
+    """(lock Call, [field names through the guarded struct]) if the operand/place is reached through a guard deref"""
+    o = fn.origin(op, through_calls=DEREFS + ("::unwrap", "::expect"), at=at)
+    if o[0] == "call" and is_lock_call(o[1]):
+        proj = o[2] if len(o) > 2 and isinstance(o[2], list) else []
+        return o[1], [p[1] for p in proj if isinstance(p, list) and p[0] == "f"]
+    return None, []
+
+
+def lock_class(fn, lc):
+    """(guarded type, field path of the mutex) — the lock's class"""
+    ga = lc.gargs or []
+    ty = ga[-1] if ga else "?"
+    o = fn.origin(lc.args[0]) if lc.args else None
+    path = []
+    if o and len(o) > 2 and isinstance(o[2], list):
+        path = [f"{p[2].rsplit('::', 1)[-1]}.{p[1]}" for p in o[2] if isinstance(p, list) and p[0] == "f"]
+    return ty, ".".join(path)
+
+
+def guarded_accesses(fn):
+    """every field access through a mutex guard:
+       (bb, stmt_idx or None, 'r'|'w'|'call', lock Call, [fields], line, extra)"""
+    out = []
+    cache = {}
+
+    def g_of_place(pl, b):
+        key = (pl[0], tuple(str(p) for p in pl[1]), b)
+        if key not in cache:
+            cache[key] = guard_of(fn, ["c", pl], at=b)
+        return cache[key]
+
+    for b, i, pl, rv, ln in fn.assigns():
+        # write through a guard
+        if pl[1] and any(isinstance(p, list) and p[0] == "f" for p in pl[1]):
+            lc, flds = g_of_place(pl, b)
+            if lc:
+                out.append((b, i, "w", lc, flds, ln, rv))
+        # reads
+        places = []
+
+        def collect(x):
+            if isinstance(x, list):
+                if len(x) == 2 and x[0] in ("c", "m") and isinstance(x[1], list) and len(x[1]) == 2 and isinstance(x[1][0], int):
+                    places.append(x[1])
+                    return
+                if len(x) >= 3 and x[0] in ("ref", "raw") and isinstance(x[2], list):
+                    places.append(x[2])
+                    return
+                if len(x) == 2 and x[0] == "disc":
+                    places.append(x[1])
+                    return
+                for y in x:
+                    collect(y)
+        collect(rv)
+        for p in places:
+            if p[1] and any(isinstance(q, list) and q[0] == "f" for q in p[1]):
+                lc, flds = g_of_place(p, b)
+                if lc:
+                    kind = "ref" if rv[0] in ("ref", "raw") else "r"
+                    out.append((b, i, kind, lc, flds, ln, rv))
+    return out
